@@ -77,6 +77,9 @@ type peer struct {
 	wake   chan struct{}
 	parked chan struct{}
 	gone   bool // the reader goroutine has returned
+	// when the peer last read data, when it saw the end, whether it ever stopped reading
+	lastData, endedAt time.Time
+	everPaused        bool
 	// discard: the proxy has closed this paused peer's socket; it reads again, only to see the
 	// end of the connection (what was still in the kernel's buffer is not part of `recv`)
 	discard bool
@@ -87,6 +90,9 @@ func (p *peer) setPaused(v bool) {
 	p.mu.Lock()
 	was := p.paused
 	p.paused = v
+	if v {
+		p.everPaused = true
+	}
 	if p.wake == nil {
 		p.wake = make(chan struct{}, 1)
 	}
@@ -161,8 +167,12 @@ func (p *peer) reader() {
 		if !p.discard {
 			p.recv = append(p.recv, buf[:n]...)
 		}
+		if n > 0 {
+			p.lastData = time.Now()
+		}
 		if err != nil {
 			p.ended = true
+			p.endedAt = time.Now()
 			if errors.Is(err, syscall.ECONNRESET) {
 				p.rst = true
 			}
@@ -326,6 +336,26 @@ func (w *world) labelOracle(i int, fail func(int, string, string, string, string
 		if n > max {
 			return fail(i, "oracle", "C20", fmt.Sprintf("at most %d", max), f,
 				fmt.Sprintf("a byte counter shows %d bytes, but only %d bytes were sent on connections made under its labels", n, max), "e6:C20:overcount")
+		}
+	}
+	// ... and in a history without toxics, pauses, aborts or unawaited sends every write of the proxy
+	// succeeded: what the receiving peers got has all been counted as sent
+	if noLinkGoroutines && w.simple {
+		need := map[string]int64{}
+		for _, n := range w.corder {
+			c := w.conns[n]
+			c.server.mu.Lock()
+			need[c.labUp] += int64(len(c.server.recv))
+			c.server.mu.Unlock()
+			c.client.mu.Lock()
+			need[c.labDn] += int64(len(c.client.recv))
+			c.client.mu.Unlock()
+		}
+		for k, nb := range need {
+			if k != "" && sent[k] < nb {
+				return fail(i, "oracle", "C20", fmt.Sprintf("sent >= %d", nb), fmt.Sprintf("S[%s]=%d", k, sent[k]),
+					fmt.Sprintf("with no link goroutine left, the receiving peers of the connections made under these labels hold %d bytes, but the sent-bytes counter shows %d: bytes the proxy wrote were never counted", nb, sent[k]), "e6:C20:undercount")
+			}
 		}
 	}
 	// once every link goroutine has ended both counters of a series are final: what was written
@@ -547,6 +577,10 @@ type world struct {
 	pushed       map[string]int64 // label set -> bytes the harness's peers wrote on connections started under it
 	base         [4]int
 	stopReturned time.Time
+	// simple: the history has no toxic, no pause, no abort, no unawaited send and no stalled stop -
+	// every write of the proxy succeeds and every link is idle when a proxy is stopped
+	simple bool
+	stopAt map[string]time.Time // proxy -> when its last disable / delete request returned
 }
 
 func (w *world) api(method, path, body string) int {
@@ -745,7 +779,15 @@ func (e *Engine) Run(ops []string, res *report.Result) *report.Failure {
 	logger := zerolog.Nop()
 	srv := toxiproxy.NewServer(mc, logger)
 	w := &world{e: e, srv: srv, h: srv.Routes(), reg: reg, ups: map[string]*upServer{}, upAddr: map[string]string{},
-		proxies: map[string]string{}, conns: map[string]*conn{}, pushed: map[string]int64{}, base: [4]int{g0a, g0b, g0c, g0d}}
+		proxies: map[string]string{}, conns: map[string]*conn{}, pushed: map[string]int64{}, stopAt: map[string]time.Time{}, base: [4]int{g0a, g0b, g0c, g0d}}
+	w.simple = true
+	for _, op := range ops {
+		switch strings.Fields(op + " x")[0] {
+		case "upstream", "create", "connect", "send", "close", "disable", "delete", "enable", "setupstream", "populate":
+		default:
+			w.simple = false
+		}
+	}
 	var result *report.Failure
 	var shape []string
 	defer func() {
@@ -831,10 +873,14 @@ func (e *Engine) Run(ops []string, res *report.Result) *report.Failure {
 		case "enable":
 			exec = func() { w.api("PATCH", "/proxies/"+f[1], `{"enabled":true}`) }
 		case "disable":
-			exec = func() { w.api("PATCH", "/proxies/"+f[1], `{"enabled":false}`) }
+			exec = func() {
+				w.api("PATCH", "/proxies/"+f[1], `{"enabled":false}`)
+				w.stopAt[f[1]] = time.Now()
+			}
 		case "delete":
 			exec = func() {
 				w.api("DELETE", "/proxies/"+f[1], "")
+				w.stopAt[f[1]] = time.Now()
 				for k, n := range w.porder {
 					if n == f[1] {
 						w.porder = append(w.porder[:k], w.porder[k+1:]...)
@@ -1437,6 +1483,31 @@ func (w *world) downOracle(i int, fail func(int, string, string, string, string,
 			}
 		}
 		if open == "" {
+			// ... and they saw it when the request returned, not later: stop() closes every socket of
+			// the proxy before it returns, whatever a toxic still holds (peers that were reading)
+			if at, ok := w.stopAt[pname]; ok {
+				for _, n := range w.corder {
+					c := w.conns[n]
+					if c.proxy != pname {
+						continue
+					}
+					for _, pr := range []*peer{c.client, c.server} {
+						pr.mu.Lock()
+						late := !pr.everPaused && pr.endedAt.After(at.Add(1500*time.Millisecond))
+						data := !pr.everPaused && pr.lastData.After(at.Add(300*time.Millisecond))
+						d1, d2 := pr.endedAt.Sub(at), pr.lastData.Sub(at)
+						pr.mu.Unlock()
+						if data {
+							return fail(i, "oracle", "C03", "nothing relayed after the request returned", fmt.Sprintf("connection %s: data %v after", n, d2),
+								"a peer received data through a proxy after the request that disabled/deleted it had returned", "e6:C03:data-after-stop")
+						}
+						if late {
+							return fail(i, "oracle", "C03", "closed when the request returns", fmt.Sprintf("connection %s: end seen %v after", n, d1),
+								"a connection of a disabled/deleted proxy stayed open at a peer long after the request had returned", "e6:C03:conn-closed-late")
+						}
+					}
+				}
+			}
 			return nil
 		}
 		if time.Now().After(deadline) {
